@@ -11,6 +11,7 @@ import (
 	"path/filepath"
 	"sort"
 	"strconv"
+	"strings"
 	"sync"
 	"time"
 )
@@ -63,6 +64,12 @@ type Run struct {
 	// GoTest, when set, renders a recorded case as a plain Go unit test that uses only alttpo/snes
 	// API (no explorer); it is written next to the replay file as <replay>.go.txt.
 	GoTest func(c interface{}, sig, what string) string
+
+	// Confirm, when set, re-executes a recorded case on its own (single-threaded, fresh objects) and says
+	// whether it still violates the property. The explorations run many library objects in parallel; a
+	// violation that exists only while other objects are active is interference between instances (C18's
+	// subject), not a violation of this property, and is listed in the evidence without raising the alarm.
+	Confirm func(c interface{}) (violates bool, observed string)
 }
 
 func New(id, tier, level string) *Run {
@@ -205,7 +212,7 @@ func (r *Run) Finish() {
 	unexplained := 0
 	knownSeen := 0
 	sort.Strings(r.sigOrder)
-	var vio []map[string]interface{}
+	var vio, unconfirmed []map[string]interface{}
 	for _, sig := range r.sigOrder {
 		s := r.sigs[sig]
 		if k, ok := r.known[sig]; ok {
@@ -213,6 +220,22 @@ func (r *Run) Finish() {
 			fmt.Printf("KNOWN-FINDING: property=%s %s [signature=%s cases=%d]\n", r.ID, k.What, sig, s.count)
 			vio = append(vio, map[string]interface{}{"signature": sig, "known": true, "cases": s.count})
 			continue
+		}
+		if r.Confirm != nil && s.first != nil && !strings.Contains(sig, "does-not-return") {
+			ok, obs := true, ""
+			func() {
+				defer func() {
+					if x := recover(); x != nil {
+						ok, obs = true, fmt.Sprint("replay panicked: ", x)
+					}
+				}()
+				ok, obs = r.Confirm(s.first)
+			}()
+			if !ok {
+				fmt.Printf("  note: %s [signature=%s cases=%d] was observed during the parallel exploration but is NOT reproduced when its case runs alone (%s): interference between instances, not reported under %s\n", s.what, sig, s.count, obs, r.ID)
+				unconfirmed = append(unconfirmed, map[string]interface{}{"signature": sig, "cases": s.count, "what": s.what, "alone": obs})
+				continue
+			}
 		}
 		unexplained++
 		p := r.writeReplay(sig, s)
@@ -227,6 +250,9 @@ func (r *Run) Finish() {
 	}
 	if len(vio) > 0 {
 		cov["findings"] = vio
+	}
+	if len(unconfirmed) > 0 {
+		cov["observed_only_under_parallel_load_not_reproduced_alone"] = unconfirmed
 	}
 	ev := map[string]interface{}{
 		"property_id": r.ID, "tier": r.Tier, "seed": r.Seed, "level": r.Level,
